@@ -309,7 +309,7 @@ def _check(ctx, lib, W, c, obs=None):
             v = unm(o, checked)
             obs.append(("unmarshal", checked, v))
             if v:
-                b_ = W.buf(mlen)
+                b_ = W.buf(mlen + 128)
                 if iswk:
                     d.vf_wk_marshal(WKK[kind], b_, o, 1 if comp else 0)
                 else:
@@ -343,11 +343,14 @@ def _check(ctx, lib, W, c, obs=None):
         expect(v["idx"] == fields["idx"], sig_ + "/field-idx", lambda: "indices %r became %r" % (fields["idx"], v["idx"]))
         expect(all(W.g1_eq(a, b) for a, b in zip(v["b"], fields["b"])), sig_ + "/field-b", "b[] differs")
     # re-marshalling the unmarshalled object reproduces the bytes (covers the flat objects field by field as well)
-    buf2 = W.buf(mlen)
+    import os as _os
+    pad = 0 if _os.environ.get("VERIF_SAN") == "1" else 128       # exact-size under sanitizers, guard bytes otherwise
+    buf2 = W.buf(mlen + pad)
     if iswk:
         d.vf_wk_marshal(WKK[kind], buf2, new, 1 if comp else 0)
     else:
         d.vf_lq_marshal(LQK[kind], buf2, new, 1 if comp else 0)
+    expect(ctypes.string_at(buf2, mlen + pad)[mlen:] == b"\xCD" * pad, sig_ + "/remarshal-overrun", "marshalling the unmarshalled object wrote beyond get_marshalled_length bytes")
     expect(ctypes.string_at(buf2, mlen) == wire, sig_ + "/remarshal", "unmarshal(marshal(x)) re-marshals to different bytes")
     # unchecked unmarshal of valid bytes gives the same object
     if kind in ("params", "sk"):
@@ -358,11 +361,12 @@ def _check(ctx, lib, W, c, obs=None):
     else:
         new2 = W.buf(d.vf_lq_sizeof(LQK[kind]))
     expect(unm(new2, False), sig_ + "/unchecked-rejected", "unchecked unmarshal failed on valid bytes")
-    buf3 = W.buf(mlen)
+    buf3 = W.buf(mlen + pad)
     if iswk:
         d.vf_wk_marshal(WKK[kind], buf3, new2, 1 if comp else 0)
     else:
         d.vf_lq_marshal(LQK[kind], buf3, new2, 1 if comp else 0)
+    expect(ctypes.string_at(buf3, mlen + pad)[mlen:] == b"\xCD" * pad, sig_ + "/remarshal-overrun", "marshalling the (unchecked) unmarshalled object wrote beyond get_marshalled_length bytes")
     expect(ctypes.string_at(buf3, mlen) == wire, sig_ + "/unchecked-differs", "unchecked unmarshal gives a different object")
 
 
